@@ -326,6 +326,9 @@ def _for_over(ex, stmt, st, it, key, lc):
         return _unroll(ex, stmt, st, list(it))
     if isinstance(it, dict):
         return _unroll(ex, stmt, st, list(it))
+    if isinstance(it, Rec) and it.kind == 'Token' and hasattr(ex, 'ensure_tokens'):
+        # iterating a group node iterates its children list (TokenList.__iter__)
+        it = ex.getattr(it, 'tokens', st)
     if isinstance(it, LRef):
         items = st.lists[it.lid]
         if all(x[0] == 'el' for x in items) and not (lc and lc.get('cut')):
@@ -342,6 +345,17 @@ def _for_over(ex, stmt, st, it, key, lc):
     if isinstance(it, Rec) and it.kind == 'aseq':
         o = st.objs[it.oid]
         it = ex.new_obj(st, 'seq_iter', {'SEQ': it, 'K': 0, 'N': o['N'], 'AT': o['AT']})
+    if isinstance(it, Rec) and it.kind in ('enum_iter', 'seq_iter') and not lc:
+        # an iterator over a LOCAL list with known elements that has not been advanced yet (e.g. enumerate(cases) with
+        # cases built from a known shape) and no loop contract: unrolled like a concrete sequence
+        o = st.objs[it.oid]
+        seq = o.get('SEQ')
+        if isinstance(seq, LRef) and o.get('K') == 0 and all(x[0] == 'el' for x in st.lists[seq.lid]) \
+                and not (hasattr(ex, 'is_tokens_list') and ex.is_tokens_list(st, seq)):
+            vals = [x[1] for x in st.lists[seq.lid]]
+            if it.kind == 'enum_iter':
+                vals = [(i, v) for i, v in enumerate(vals)]
+            return _unroll(ex, stmt, st, vals)
     if isinstance(it, Rec) and it.kind in ('enum_iter', 'seq_iter'):
         st.ghost['IT' + (key or 'x').replace('.', '_')] = it
         # iterator over an abstract sequence with ghost position K (0 <= K <= N)
